@@ -256,6 +256,7 @@ class C15(Prop):
         "C15.sys_is_concat", "C15.sys_eq_spec_cpython",
         "C15.cpython_platform_order_kept", "C15.compatible_platform_order_kept", "C15.generic_platform_order_kept",
         "C15.cpython_nodup", "C15.compatible_nodup", "C15.generic_nodup",
+        "C15.compatible_repeats_interp_in_py_range", "C15.compatible_repeats_platform_any", "C15.cpython_repeats_abi3_other_case",
         "C15.abi3_from_3_2_only", "C15.abi3_down_to_3_2", "C15.no_abi3_when_threaded",
         "C15.major_only_yields_given_abis_and_none", "C15.default_abis_table", "C15.short_names_table",
     ]
@@ -270,8 +271,10 @@ class C15(Prop):
                "config values are None, non-negative ints or strs"]
     partial = ["non-ASCII ABI/platform/interpreter strings (str.lower, \\d outside ASCII) are outside model and theorems",
                "three-or-more-component python_version tuples are modelled and compared but not covered by the refinement theorems",
-               "no-repeat theorems assume no ABI is a differently-cased spelling of abi3/none (e.g. 'ABI3'): such a name is "
-               "not recognised as the explicit ABI by the code and then collides with it after Tag lower-casing"]
+               "no-repeat theorems assume no ABI is a differently-cased spelling of abi3/none (e.g. 'ABI3'), no platform is 'any' "
+               "and the interpreter given to compatible_tags is not itself in the py range: such inputs have no repeats but "
+               "collide with the tags the functions add themselves (after Tag lower-casing); the negations are proved at "
+               "concrete witnesses (C15.*_repeats_*) and the class is a known finding"]
     budget = {"quick": (2500, 2500), "thorough": (40000, 40000)}
 
     # ---- correspondence
@@ -401,8 +404,18 @@ class C15(Prop):
                 which = rng.choice(["cpython", "compatible", "generic"])
                 plats = _dedup_lower(gen_plats(rng, allow_empty=False))
                 abis = _dedup_lower(gen_abis(rng, odd_case=False))
-                yield ("no_repeats", {"which": which, "ver": gen_ver(rng, False), "abis": abis, "plats": plats,
-                                      "interp": rng.choice(["pp39", "cp312", "Foo1", "ip27", None])})
+                ver = gen_ver(rng, False)
+                interp = rng.choice(["pp39", "cp312", "Foo1", "ip27", None])
+                if rng.random() < 0.12:
+                    # inputs without repeats that collide with what the functions add themselves
+                    k = rng.randrange(3)
+                    if k == 0 and len(ver) in (1, 2):
+                        interp = rng.choice(spec_py_range(tuple(ver)))
+                    elif k == 1:
+                        plats = plats + [rng.choice(["any", "ANY"])]
+                    else:
+                        abis = abis + [rng.choice(["ABI3", "None", "NONE"])]
+                yield ("no_repeats", {"which": which, "ver": ver, "abis": abis, "plats": plats, "interp": interp})
             elif r < 0.9:
                 yield ("sys_is_concat", {"probe": gen_probe(rng, consistent=True)})
             else:
@@ -447,6 +460,17 @@ class C15(Prop):
                     want = spec_generic(inp["interp"], inp["abis"], plats)
             if got != want:
                 return False, f"{law[:-8]}_tags with platforms={plats!r}: " + first_diff(got, want)
+            # the parameters are Iterables: a tuple, a one-shot iterator and a generator of the same items give the same tags
+            for name, wrap in (("tuple", tuple), ("iterator", lambda l: iter(list(l))), ("generator", lambda l: (x for x in list(l)))):
+                with T.probes(probe):
+                    if law == "cpython_is_spec":
+                        alt = triples(tags.cpython_tags(tuple(inp["ver"]), abis=wrap(inp["abis"]), platforms=wrap(plats)))
+                    elif law == "compatible_is_spec":
+                        alt = triples(tags.compatible_tags(tuple(inp["ver"]), interpreter=inp["interp"], platforms=wrap(plats)))
+                    else:
+                        alt = triples(tags.generic_tags(inp["interp"], abis=wrap(inp["abis"]), platforms=wrap(plats)))
+                if alt != got:
+                    return False, f"{law[:-8]}_tags given a {name} instead of a list (platforms={plats!r}): " + first_diff(alt, got)
             return True, ""
         if law == "no_repeats":
             ver, abis, plats, interp = tuple(inp["ver"]), inp["abis"], inp["plats"], inp["interp"]
@@ -454,8 +478,8 @@ class C15(Prop):
                 raise T.OutOfDomain("non-ASCII")
             if not plats or not no_repeats([p.lower() for p in plats]) or not no_repeats([a.lower() for a in abis]):
                 raise T.OutOfDomain("inputs have repeats")
-            if any(a.lower() in ("abi3", "none") and a not in ("abi3", "none") for a in abis):
-                raise T.OutOfDomain("non-canonical spelling of abi3/none")
+            # (an ABI spelled `ABI3` / `None`, a platform `any` and an interpreter inside the py range are inputs without
+            # repeats too: the repeats they cause are the known finding c15_colliding_inputs)
             if len(ver) not in (1, 2):
                 raise T.OutOfDomain("outside the law's domain")
             which = inp["which"]
@@ -463,8 +487,6 @@ class C15(Prop):
                 if which == "cpython":
                     got = triples(tags.cpython_tags(ver, abis=list(abis), platforms=list(plats)))
                 elif which == "compatible":
-                    if "any" in [p.lower() for p in plats] or (interp and interp.lower() in spec_py_range(ver)):
-                        raise T.OutOfDomain("'any' among the platforms / interpreter inside the py range")
                     got = triples(tags.compatible_tags(ver, interpreter=interp, platforms=list(plats)))
                 elif which == "generic":
                     if not interp:
